@@ -522,8 +522,20 @@ def r_consttime(P, chk):
     allowed_loops = {"ensureStringBufferCanHold": "capacity doubling, amortised O(1)",
                      "pool_add_slab": "no loop expected", "stack_push": "doubling realloc"}
 
+    def doubling(f, lp):
+        """a capacity-growth loop: `while (need > cap) cap *= K` (or `cap += BIG`): amortised O(1) whatever function holds it"""
+        cond = lp["c"][0] if lp["k"] == "WhileStmt" else (lp["c"][1] if lp["k"] in ("ForStmt", "DoStmt") else None)
+        body = lp["c"][1] if lp["k"] == "WhileStmt" else (lp["c"][3] if lp["k"] == "ForStmt" else lp["c"][0])
+        if cond is None or body is None:
+            return False
+        cvars = {y["n"] for y in walk(cond) if y["k"] == "DeclRefExpr" and y.get("dk") in ("Var", "Parm")}
+        mult = [y for y in walk(body) if y["k"] == "CompoundAssignOperator" and y["op"] == "*=" and key(y["c"][0]) in cvars
+                and (const_value(y["c"][1]) or 0) >= 2]
+        calls = [y for y in walk(body) if y["k"] == "CallExpr"]
+        return bool(mult) and not calls
+
     def loops(f):
-        return [n for n in f.walk() if n["k"] in ("WhileStmt", "ForStmt", "DoStmt")]
+        return [n for n in f.walk() if n["k"] in ("WhileStmt", "ForStmt", "DoStmt") and not doubling(f, n)]
     for name, unit in prims:
         f = P.func(name, unit)
         seen = set()
